@@ -5,6 +5,7 @@ import (
 	"flag"
 	"fmt"
 	"os"
+	"strconv"
 	"strings"
 )
 
@@ -37,6 +38,36 @@ func main() {
 		if *stats != "" {
 			writeJSON(*stats, map[string]interface{}{"stats": g.stats, "sample": g.sample, "histories": g.hist})
 		}
+	case "refresh":
+		// hx refresh -in a.ops -out b.ops : rewrites the implementation's answers embedded in `chmap`
+		// lines with those of the current tree (used to keep corpus replays usable after a repair)
+		fs := flag.NewFlagSet("refresh", flag.ExitOnError)
+		in := fs.String("in", "", "ops")
+		out := fs.String("out", "", "ops")
+		fs.Parse(os.Args[2:])
+		data, err := os.ReadFile(*in)
+		if err != nil {
+			panic(err)
+		}
+		r := NewRunner()
+		r.quiet = true
+		var res []string
+		for _, l := range strings.Split(strings.TrimRight(string(data), "\n"), "\n") {
+			f := strings.Fields(l)
+			if len(f) == 6 && f[0] == "chmap" {
+				if e, _ := r.getSk(f[1]); e != nil {
+					mh, _ := strconv.Atoi(f[2])
+					sc, _ := parseF(f[3])
+					if me, ok := r.maps[mh]; ok {
+						d, _ := doChangeMapping(e, me.m, sc, "sparse", 0)
+						l = fmt.Sprintf("chmap %s %s %s %s %s", f[1], f[2], f[3], showFBins(storeBinsF(d.GetPositiveValueStore())), showFBins(storeBinsF(d.GetNegativeValueStore())))
+					}
+				}
+			}
+			r.Exec(l)
+			res = append(res, l)
+		}
+		os.WriteFile(*out, []byte(strings.Join(res, "\n")+"\n"), 0o644)
 	case "consts":
 		fs := flag.NewFlagSet("consts", flag.ExitOnError)
 		repo := fs.String("repo", "/repo", "repository root")
